@@ -1,4 +1,5 @@
 import Proofs.RenderTrace
+import Proofs.TraceExact
 import Proofs.C07Source
 /-!
 # C07, the determinate form — the error of a render is the error of ONE construct: the first that fails
@@ -66,6 +67,128 @@ theorem run_fails_at_firstFailure (P : Prims) (O : OutPrims) (cfg : Cfg) (fs : F
     cases hse
   · cases h
   · cases h
+
+/-! ### `firstFailure` is complete: it is `none` exactly when the render has no error
+
+The walk is proved against the renderer in both directions: `sp_renderNode` … (Proofs/RenderTrace.lean: an error of
+the run is at the end of the trace) and `fx_renderNode` … (Proofs/TraceExact.lean: the trace ends with a site only
+when the run ends with an error or a sentinel). A `break`/`continue` that reaches the top is an error of the real
+engine too (`{% break %}` alone: "break outside a loop", line of the tag, no output — run on the real code), so no
+case has to be set apart. The model outcomes `panic` and `unmodelled` are not errors: the walk reads the decisions off
+the fault-free run and says nothing where that run is not defined. -/
+
+theorem firstFailure_none_iff_fin (c : RCtx) (root : List Node) (env : Env) :
+    firstFailure c root env = none ↔ (traceRoot c root env).fin = none := by
+  unfold firstFailure
+  have hl := (located_traceRoot c root env).2
+  cases h : (traceRoot c root env).fin with
+  | none => simp
+  | some s =>
+    cases s with
+    | none => exact absurd h hl
+    | some l => simp
+
+theorem Prog.pureFail_none_iff {α} (p : Prog α) : p.pureFail = none ↔ ∀ out e, p.runPure ≠ (out, .err e) := by
+  constructor
+  · intro h out e hr
+    rw [Prog.pureFail_of_runPure p out e hr] at h
+    cases h
+  · intro h
+    cases hpf : p.pureFail with
+    | none => rfl
+    | some e => exact absurd (Prog.runPure_of_pureFail p e hpf) (h _ e)
+
+/-- **C07 (`firstFailure` is `none` exactly when there is no error), compiled trees.** For every context whose
+    include handler writes to a buffer of its own, every node tree and environment: `firstFailure` is `none` if
+    and only if `Render` into a buffer (a writer that never fails) does not end with an error — a failure, or a
+    `break`/`continue` that reaches the top. With `render_fails_at_firstFailure`: the render ends with the error
+    `e` exactly when `firstFailure` is the location of `e`. -/
+theorem firstFailure_none_iff_no_error (c : RCtx) (hc : IncQuiet c) (root : List Node) (env : Env) :
+    firstFailure c root env = none ↔ ∀ out e, ((renderRoot c root env).bind statusToProg).runPure ≠ (out, .err e) := by
+  rw [firstFailure_none_iff_fin, traceRoot_fin_none_iff c hc, Prog.pureFail_none_iff]
+
+/-- **C07 (`firstFailure` is complete), compiled trees.** Under the same hypotheses, for a render that is defined in
+    the model (it does not end in the model outcomes `panic` / `unmodelled`): `firstFailure` is `none` if and only
+    if the render SUCCEEDS, returning its output. -/
+theorem firstFailure_none_iff_ok (c : RCtx) (hc : IncQuiet c) (root : List Node) (env : Env)
+    (hp : ∀ out w, ((renderRoot c root env).bind statusToProg).runPure ≠ (out, .panic w))
+    (hu : ∀ out w, ((renderRoot c root env).bind statusToProg).runPure ≠ (out, .unmodelled w)) :
+    firstFailure c root env = none ↔ ∃ out, ((renderRoot c root env).bind statusToProg).runPure = (out, .ok ()) := by
+  rw [firstFailure_none_iff_no_error c hc]
+  constructor
+  · intro h
+    cases hr : ((renderRoot c root env).bind statusToProg).runPure with
+    | mk out o =>
+      cases o with
+      | ok a => exact ⟨out, rfl⟩
+      | err e => exact absurd hr (h out e)
+      | panic w => exact absurd hr (hp out w)
+      | unmodelled w => exact absurd hr (hu out w)
+  · rintro ⟨out, h⟩ out' e hr
+    rw [h] at hr
+    cases hr
+
+/-- **C07 (`firstFailure` characterises the result of `run`), from source bytes.** For every source that compiles
+    to `root`, every delimiter set, value layer, file system, include depth, start line and environment:
+    `firstFailure` on `root` is the location of the error when `run` returns an error, and `none` in every other
+    case — output, or one of the model outcomes `panic` / `unmodelled`. -/
+theorem run_firstFailure_complete (P : Prims) (O : OutPrims) (cfg : Cfg) (fs : FS) (fuel : Nat) (src : Bytes) (line : Nat)
+    (env : Env) (root : List Node) (hc : compileSource cfg.delims src line = .ok root) :
+    firstFailure (mkCtx P O cfg fs fuel) root env =
+      match run P O cfg fs fuel src line env with
+      | .err e => some ⟨e.line, e.pathSet⟩
+      | _ => none := by
+  cases hrun : run P O cfg fs fuel src line env with
+  | err e => exact run_fails_at_firstFailure P O cfg fs fuel src line env root e hc hrun
+  | ok out =>
+    simp only
+    rw [firstFailure_none_iff_no_error _ (incQuiet_mkCtx P O cfg fs fuel)]
+    intro out' e hr
+    unfold run at hrun
+    rw [hc] at hrun
+    simp only at hrun
+    have hr' : (frender P O cfg fs fuel root env).runPure = (out', .err e) := hr
+    rw [hr'] at hrun
+    cases e <;> cases hrun
+  | panic w =>
+    simp only
+    rw [firstFailure_none_iff_no_error _ (incQuiet_mkCtx P O cfg fs fuel)]
+    intro out' e hr
+    unfold run at hrun
+    rw [hc] at hrun
+    simp only at hrun
+    have hr' : (frender P O cfg fs fuel root env).runPure = (out', .err e) := hr
+    rw [hr'] at hrun
+    cases e <;> cases hrun
+  | unmodelled w =>
+    simp only
+    rw [firstFailure_none_iff_no_error _ (incQuiet_mkCtx P O cfg fs fuel)]
+    intro out' e hr
+    unfold run at hrun
+    rw [hc] at hrun
+    simp only at hrun
+    have hr' : (frender P O cfg fs fuel root env).runPure = (out', .err e) := hr
+    rw [hr'] at hrun
+    cases e <;> cases hrun
+
+/-- **C07 (`run` succeeds exactly when `firstFailure` is `none`), from source bytes.** For a source that compiles to
+    `root` and a run that is defined in the model: `run` returns output if and only if `firstFailure` on `root` is
+    `none`; and it returns the error `e` only if `firstFailure` is the location of `e` (`run_fails_at_firstFailure`). -/
+theorem run_ok_iff_firstFailure_none (P : Prims) (O : OutPrims) (cfg : Cfg) (fs : FS) (fuel : Nat) (src : Bytes) (line : Nat)
+    (env : Env) (root : List Node) (hc : compileSource cfg.delims src line = .ok root)
+    (hp : ∀ w, run P O cfg fs fuel src line env ≠ .panic w) (hu : ∀ w, run P O cfg fs fuel src line env ≠ .unmodelled w) :
+    (∃ out, run P O cfg fs fuel src line env = .ok out) ↔ firstFailure (mkCtx P O cfg fs fuel) root env = none := by
+  have h := run_firstFailure_complete P O cfg fs fuel src line env root hc
+  cases hrun : run P O cfg fs fuel src line env with
+  | ok out => rw [hrun] at h; exact ⟨fun _ => h, fun _ => ⟨out, rfl⟩⟩
+  | err e =>
+    rw [hrun] at h
+    simp only at h
+    constructor
+    · rintro ⟨out, ho⟩; cases ho
+    · intro hn; rw [hn] at h; cases h
+  | panic w => exact absurd hrun (hp w)
+  | unmodelled w => exact absurd hrun (hu w)
 
 /-! ### Reading `firstFailure`: each by unfolding the walk -/
 
@@ -168,3 +291,46 @@ example (P : Prims) (O : OutPrims) (fs : FS) : 1 ≤ (⟨2, true, .other "undefi
 example (P : Prims) (O : OutPrims) (fs : FS) :
     ∃ se, RawErr.located ⟨3, true, .other "undefinedVariable", .byCause⟩ = .located se ∧ se.line ≠ 0 ∧ se.pathSet = true :=
   render_error_line_nonzero P O strictCfg fs 1 c07ExRoot (by decide) (by decide) [] _ _ (c07Ex_run P O fs)
+
+/-! ### `firstFailure = none`: a concrete instance
+
+`a⏎{% if true %}⏎{% assign x = "b" %}{% endif %}` as a tree: the render succeeds with output `a⏎⏎`, and the walk ends
+without a site. From bytes: `a⏎{% assign x = 1 %}b` compiles and `run` returns `a⏎b`. -/
+def c07OkRoot : List Node := [.text 1 [97, 10], .ifB 2 [(.always, [.text 2 [10], .assign 3 [120] (.lit (.str [98]))])]]
+
+theorem c07Ok_run (P : Prims) (O : OutPrims) (fs : FS) :
+    (frender P O strictCfg fs 1 c07OkRoot []).runPure = ([97, 10, 10], .ok ()) := by
+  simp [c07OkRoot, frender, renderRoot, renderList, renderNode, renderBranches, renderBlockBody, evalCond, wrapAt, wrapFailAt,
+    M.mapFail, M.bind, M.pure, M.getEnv, M.setVar, M.ofRes, writeM, flushM, Prog.bind, Prog.mapFail, Prog.runPure, bind, pure, mkCtx,
+    evaluate, eval, Status.wrap, statusToProg, strictCfg]
+
+example (P : Prims) (O : OutPrims) (fs : FS) : firstFailure (mkCtx P O strictCfg fs 1) c07OkRoot [] = none :=
+  (firstFailure_none_iff_no_error _ (incQuiet_mkCtx P O strictCfg fs 1) c07OkRoot []).mpr
+    (fun out e h => by have h' := c07Ok_run P O fs; unfold frender at h'; rw [h'] at h; cases h)
+
+example (P : Prims) (O : OutPrims) (fs : FS) : firstFailure (mkCtx P O strictCfg fs 1) c07OkRoot [] = none :=
+  (firstFailure_none_iff_ok _ (incQuiet_mkCtx P O strictCfg fs 1) c07OkRoot []
+    (fun out w h => by have h' := c07Ok_run P O fs; unfold frender at h'; rw [h'] at h; cases h)
+    (fun out w h => by have h' := c07Ok_run P O fs; unfold frender at h'; rw [h'] at h; cases h)).mpr ⟨_, c07Ok_run P O fs⟩
+
+def c07OkSrc : Bytes := [97, 10, 123, 37, 32, 97, 115, 115, 105, 103, 110, 32, 120, 32, 61, 32, 49, 32, 37, 125, 98]
+
+theorem c07OkSrc_compiles : compileSource [] c07OkSrc 1 = .ok [.text 1 [97, 10], .assign 2 [120] (.lit (.int .int 1)), .text 2 [98]] := by rfl
+
+theorem c07OkSrc_run (P : Prims) (O : OutPrims) (fs : FS) : run P O strictCfg fs 1 c07OkSrc 1 [] = .ok [97, 10, 98] := by
+  unfold run
+  rw [show strictCfg.delims = [] from rfl, c07OkSrc_compiles]
+  simp [frender, renderRoot, renderList, renderNode, wrapFailAt, M.mapFail, M.bind, M.pure, M.getEnv, M.setVar, M.ofRes, writeM, flushM,
+    Prog.bind, Prog.mapFail, Prog.runPure, bind, pure, mkCtx, evaluate, eval, statusToProg, strictCfg]
+
+/-- `run_firstFailure_complete` and `run_ok_iff_firstFailure_none` on these bytes: `run` returns output, `firstFailure` is `none` -/
+example (P : Prims) (O : OutPrims) (fs : FS) :
+    firstFailure (mkCtx P O strictCfg fs 1) [.text 1 [97, 10], .assign 2 [120] (.lit (.int .int 1)), .text 2 [98]] [] = none := by
+  have h := run_firstFailure_complete P O strictCfg fs 1 c07OkSrc 1 [] _ c07OkSrc_compiles
+  rw [c07OkSrc_run] at h
+  exact h
+
+example (P : Prims) (O : OutPrims) (fs : FS) :
+    firstFailure (mkCtx P O strictCfg fs 1) [.text 1 [97, 10], .assign 2 [120] (.lit (.int .int 1)), .text 2 [98]] [] = none :=
+  (run_ok_iff_firstFailure_none P O strictCfg fs 1 c07OkSrc 1 [] _ c07OkSrc_compiles
+    (fun w h => by rw [c07OkSrc_run] at h; cases h) (fun w h => by rw [c07OkSrc_run] at h; cases h)).mp ⟨_, c07OkSrc_run P O fs⟩
